@@ -924,6 +924,34 @@ fn run_zoned(c: &mut Ctx, n: usize, special: &[(i64, u32)]) {
         if tf.as_ref().ok() != bf.as_ref().ok() || tu.as_ref().ok() != bu.as_ref().ok() {
             c.fail("serde_json and bincode disagree on a zone-aware value", &format!("{sj}: {:?} {:?} {:?} {:?}", tf, bf, tu, bu));
         }
+        // the whole-domain characterisation (theorems datetime_roundtrip_any_offset / _wall_out_of_range), with
+        // independent arithmetic: refused exactly when the wall clock is outside the range, the rounded offset
+        // is a whole day, or the shown wall clock minus the rounded offset leaves the range; otherwise the
+        // rounded offset, and the instant moved by exactly the rounding error (any leap representation)
+        {
+            let rounded = off.signum() * ((off.abs() + 30) / 60 * 60);
+            let shown_wall = wall + if !is_leap(&nd) || wall.rem_euclid(60) == 59 { 0 } else { 1 };
+            let refused = out_of_range_wall
+                || rounded.abs() == 86_400
+                || shown_wall - (rounded as i128) < ts_min()
+                || shown_wall - (rounded as i128) > ts_max();
+            let good = |r: &Result<DateTime<FixedOffset>, String>, want_off: i32| match r {
+                Err(_) => refused,
+                Ok(x) => {
+                    !refused
+                        && x.offset().local_minus_utc() == want_off
+                        && inst_ns(&x.naive_utc()) - inst_ns(&nd) == (off - rounded) as i128 * 1_000_000_000
+                }
+            };
+            let tu_f = tu.clone().map(|x| x.fixed_offset());
+            c.count(if refused { "zoned:characterised:refused" } else { "zoned:characterised:read" });
+            if !good(&tf, rounded) || !good(&tu_f, 0) {
+                c.fail(
+                    "zone-aware round trip differs from its characterisation (rounded offset, wall clock kept)",
+                    &format!("{:?} at offset {off} s ({sj}) -> {:?} / {:?}", nd, tf, tu),
+                );
+            }
+        }
         match cls {
             "regular" | "leap-second" => {
                 match &tf {
@@ -1013,6 +1041,188 @@ fn run_zoned(c: &mut Ctx, n: usize, special: &[(i64, u32)]) {
     c.count_n("zoned:distinct-whole-minute-offsets(of 2879)", whole_seen.len() as u64);
 }
 
+
+// ---- DateTime<Local> as deserialization target and as source (audit gap MEDIUM-3) ---------------------
+/// `Deserialize for DateTime<Local>` is the same visitor followed by `with_timezone(&Local)`.  The process
+/// time zone is set to fixed-offset POSIX zones (whole-minute ones, one with a seconds part, zero); `Local`
+/// is used on a fresh thread per zone (it caches the zone per thread).  Correspondence: `sd.dt.de local
+/// <off> <text>` against `DateTimeStr.deserialize_local`; a `Local` source against `DateTimeStr.serialize` at
+/// the offset the value reports.  Direct oracles: the `Local` reading is the `FixedOffset` reading of the same
+/// text with the offset replaced by the zone's; on the property's domain the instant is the original one.
+fn run_local(c: &mut Ctx, special: &[(i64, u32)]) {
+    const ZONES: [(&str, i32); 6] = [
+        ("UTC0", 0),
+        ("AAA-05:30", 19_800),
+        ("BBB+03", -10_800),
+        ("CCC-13:59", 50_340),
+        ("DDD-01:00:50", 3_650),
+        ("EEE+00:00:29", -29),
+    ];
+    let n = c.n(600, 6_000);
+    let old = std::env::var("TZ").ok();
+    for (tz, zoff) in ZONES {
+        // the cases: a value, the offset it is seen at, the text its fixed-offset form serializes to, and an
+        // optional single-edit mutation of that text
+        let mut cases: Vec<(NaiveDateTime, i32, Vec<String>)> = vec![];
+        for i in 0..n {
+            let nd = if i < special.len() {
+                match DateTime::from_timestamp(special[i].0, special[i].1) {
+                    Some(d) => d.naive_utc(),
+                    None => continue,
+                }
+            } else {
+                gen_ndt(c, special)
+            };
+            let off = if i % 3 == 0 { zoff } else { gen_offset(c, i) };
+            let z = nd.and_utc().with_timezone(&FixedOffset::east_opt(off).unwrap());
+            let text = match guard(|| serde_json::to_string(&z)) {
+                Ok(Ok(s)) => s.trim_matches('"').to_string(),
+                _ => continue, // judged by run_zoned
+            };
+            let mut texts = vec![text.clone()];
+            if i % 4 == 0 {
+                texts.push(mutate_text(c, &text));
+            }
+            cases.push((nd, off, texts));
+        }
+        std::env::set_var("TZ", tz);
+        let cs = cases.clone();
+        type R = Result<Result<(NaiveDateTime, i32), ()>, ()>;
+        // per case: the Local reading of every text; the Local source: offset, text, value after the trip
+        let out: Vec<(Vec<R>, Option<(i32, String, R, R)>)> = std::thread::spawn(move || {
+            cs.iter()
+                .map(|(nd, _, texts)| {
+                    let reads = texts
+                        .iter()
+                        .map(|t| {
+                            let q = serde_json::to_string(t).unwrap();
+                            guard(|| {
+                                serde_json::from_str::<DateTime<Local>>(&q)
+                                    .map(|x| (x.naive_utc(), x.offset().local_minus_utc()))
+                                    .map_err(|_| ())
+                            })
+                        })
+                        .collect();
+                    let src = guard(|| {
+                        let l = Local.from_utc_datetime(nd);
+                        let s = serde_json::to_string(&l).ok()?;
+                        let a = guard(|| {
+                            serde_json::from_str::<DateTime<Local>>(&s)
+                                .map(|x| (x.naive_utc(), x.offset().local_minus_utc()))
+                                .map_err(|_| ())
+                        });
+                        let b = guard(|| {
+                            let bytes = bincode::serialize(&l).map_err(|_| ())?;
+                            bincode::deserialize::<DateTime<Local>>(&bytes)
+                                .map(|x| (x.naive_utc(), x.offset().local_minus_utc()))
+                                .map_err(|_| ())
+                        });
+                        Some((l.offset().local_minus_utc(), s.trim_matches('"').to_string(), a, b))
+                    })
+                    .ok()
+                    .flatten();
+                    (reads, src)
+                })
+                .collect()
+        })
+        .join()
+        .unwrap_or_default();
+        match &old {
+            Some(v) => std::env::set_var("TZ", v),
+            None => std::env::remove_var("TZ"),
+        }
+        if out.len() != cases.len() {
+            c.fail("DateTime<Local> worker thread died", tz);
+            continue;
+        }
+        let shown = |r: &R| match r {
+            Ok(Ok((u, o))) => format!("ok {} {o}", show_ndt(u)),
+            Ok(Err(())) => "err".to_string(),
+            Err(()) => "panic".to_string(),
+        };
+        for ((nd, off, texts), (reads, src)) in cases.iter().zip(out.iter()) {
+            // --- target DateTime<Local> ---
+            for (k, (t, r)) in texts.iter().zip(reads.iter()).enumerate() {
+                c.op(&format!("sd.dt.de local {zoff} {}", hex(t.as_bytes())), &shown(r));
+                c.count("call:DateTime<Local>.de");
+                let q = serde_json::to_string(t).unwrap();
+                let rf = guard(|| serde_json::from_str::<DateTime<FixedOffset>>(&q).map(|x| x.naive_utc()).map_err(|_| ()));
+                // the Local reading = the FixedOffset reading of the same text, offset replaced by the zone's
+                let want: Result<Result<(NaiveDateTime, i32), ()>, ()> = rf.map(|x| x.map(|u| (u, zoff)));
+                if *r != want {
+                    c.fail(
+                        "DateTime<Local> target is not the DateTime<FixedOffset> reading at the local offset",
+                        &format!("TZ={tz} {t}: {} want {}", shown(r), shown(&want)),
+                    );
+                }
+                // on the domain of the instant clause: whole-minute offset, wall clock inside the range
+                let wall = inst_secs(nd) + *off as i128;
+                if k == 0 && off % 60 == 0 && wall >= ts_min() && wall <= ts_max() {
+                    c.count("local:target:instant-clause");
+                    match r {
+                        Ok(Ok((u, o))) if inst_ns(u) == inst_ns(nd) && *o == zoff && (!is_strict(&nd.time()) || u == nd) => {}
+                        other => c.fail(
+                            "DateTime<FixedOffset> read as DateTime<Local> is not the same instant",
+                            &format!("TZ={tz} {:?} at {off} ({t}) -> {}", nd, shown(other)),
+                        ),
+                    }
+                }
+            }
+            // --- source DateTime<Local> ---
+            match src {
+                None => c.fail("Serialize for DateTime<Local> does not return normally", &format!("TZ={tz} {:?}", nd)),
+                Some((lo, text, a, b)) => {
+                    c.count_n("call:DateTime<Local>.src", 3);
+                    if *lo != zoff {
+                        c.fail("Local does not report the offset of the fixed-offset TZ", &format!("TZ={tz}: {lo}"));
+                    }
+                    c.op(&format!("sd.dt.ser {} {lo}", show_ndt(nd)), &hex(text.as_bytes()));
+                    if a != b {
+                        c.fail("serde_json and bincode disagree on a DateTime<Local>", &format!("TZ={tz} {:?}: {} vs {}", nd, shown(a), shown(b)));
+                    }
+                    let wall = inst_secs(nd) + zoff as i128;
+                    if wall < ts_min() || wall > ts_max() {
+                        c.count("local:source:wall-clock-outside-range");
+                        // F21 on a Local source: written, refused on reading
+                        match a {
+                            Ok(Err(())) => c.fail(F_B, &format!("Local TZ={tz} {:?} -> {text} -> err", nd)),
+                            other => c.fail("Local value near the range end: not refused by value", &format!("TZ={tz} {:?} -> {}", nd, shown(other))),
+                        }
+                    } else if zoff % 60 == 0 {
+                        c.count("local:source:instant-clause");
+                        match a {
+                            Ok(Ok((u, o))) if inst_ns(u) == inst_ns(nd) && *o == zoff && (!is_strict(&nd.time()) || u == nd) => {}
+                            other => c.fail(
+                                "DateTime<Local> does not come back as the same instant",
+                                &format!("TZ={tz} {:?} ({text}) -> {}", nd, shown(other)),
+                            ),
+                        }
+                    } else {
+                        // a zone whose offset has a seconds part: F20 (the instant moves by the rounding error),
+                        // F24 next to a range end; anything else is a violation
+                        c.count("local:source:offset-with-seconds");
+                        let rounded = zoff.signum() * ((zoff.abs() + 30) / 60 * 60);
+                        let shown_wall = wall + if !is_leap(nd) || wall.rem_euclid(60) == 59 { 0 } else { 1 };
+                        match a {
+                            Ok(Ok((u, o))) if *o == zoff && inst_ns(u) - inst_ns(nd) == (zoff - rounded) as i128 * 1_000_000_000 => {
+                                c.fail(F_A, &format!("Local TZ={tz} {:?} -> {text} -> {} (instant moved by {} s)", nd, shown(a), zoff - rounded))
+                            }
+                            Ok(Err(())) if shown_wall - (rounded as i128) < ts_min() || shown_wall - (rounded as i128) > ts_max() => c.fail(
+                                "zone-aware value with a sub-minute offset next to the range end is not readable",
+                                &format!("Local TZ={tz} {:?} -> {text} -> err", nd),
+                            ),
+                            other => c.fail(
+                                "DateTime<Local> with a seconds offset: instant not moved by exactly the rounding error",
+                                &format!("TZ={tz} {:?} ({text}) -> {}", nd, shown(other)),
+                            ),
+                        }
+                    }
+                }
+            }
+        }
+    }
+}
+
 fn run_strings(c: &mut Ctx, special: &[(i64, u32)]) {
     let n = c.n(20_000, 200_000);
     // NaiveDate
@@ -1040,6 +1250,11 @@ fn run_strings(c: &mut Ctx, special: &[(i64, u32)]) {
                 Ok(_) => c.fail(F_C, &format!("NaiveTime {:?} -> {:?}", t, a)),
                 Err(()) => c.fail("NaiveTime round trip panics", &format!("{:?}", t)),
             }
+            // what F22 is, exactly (theorem time_roundtrip_nonstrict): the following second, fraction - 10^9
+            let want = mk_time(t.num_seconds_from_midnight() + 1, t.nanosecond() - 1_000_000_000);
+            if !matches!(&a, Ok(Ok(x)) if *x == want) || via_bin::<_, NaiveTime>(&t).ok().and_then(|r| r.ok()) != Some(want) {
+                c.fail("leap representation off second :59 is not read back as the following second", &format!("NaiveTime {:?} -> {:?}", t, a));
+            }
         }
     }
     // NaiveDateTime
@@ -1066,6 +1281,11 @@ fn run_strings(c: &mut Ctx, special: &[(i64, u32)]) {
                 Ok(Ok(x)) if *x == nd => c.count("leap-on-other-second:datetime:kept"),
                 Ok(_) => c.fail(F_C, &format!("NaiveDateTime {:?} -> {:?}", nd, a)),
                 Err(()) => c.fail("NaiveDateTime round trip panics", &format!("{:?}", nd)),
+            }
+            // theorem naive_roundtrip_nonstrict: same date, the following second, fraction - 10^9 (same instant)
+            let want = nd.date().and_time(mk_time(nd.time().num_seconds_from_midnight() + 1, nd.time().nanosecond() - 1_000_000_000));
+            if !matches!(&a, Ok(Ok(x)) if *x == want && inst_ns(x) == inst_ns(&nd)) {
+                c.fail("leap representation off second :59 is not read back as the following second", &format!("NaiveDateTime {:?} -> {:?}", nd, a));
             }
         }
     }
@@ -1280,4 +1500,5 @@ pub fn run(c: &mut Ctx) {
     run_names(c);
     // ---- string forms --------------------------------------------------------------------------------
     run_strings(c, &special);
+    run_local(c, &special);
 }
